@@ -383,7 +383,11 @@ func ruleRegisterCallers(c *Ctx) []Obligation {
 				return false
 			}
 			// token.render itself, the list renderer, or an unexported helper called only by token.render
-			okCaller := (isRender && isTokRender(f)) || isItems || (!isRender && c.onlyReachedFrom(f, isTokRender, 2))
+			isListRenderer := func(g *ssa.Function) bool {
+				ga := c.FA(g)
+				return len(ga.invokes(c.renderName())) > 0 && len(ga.invokes(c.nullName())) > 0
+			}
+			okCaller := (isRender && isTokRender(f)) || isItems || (!isRender && c.onlyReachedFrom(f, func(g *ssa.Function) bool { return isTokRender(g) || isListRenderer(g) }, 2))
 			o.req(okTok && okArg && okCaller, fname(f), "call of registration function", ci.Pos(),
 				"registration must happen only while a package token is being rendered (token.render) or pre-registered by the list renderer; facts=%s arg=%s", facts, arg)
 		}
